@@ -89,6 +89,7 @@ type mev struct {
 
 type mvb struct {
 	vb        uint16
+	endBound  uint64 // the end of the range requested when the session opened this vBucket (open end, or the high seqno sampled in finite mode)
 	resume    ckTuple
 	sentIdx   int // next index in srv.hist to send
 	lastSent  uint64
@@ -336,6 +337,7 @@ func (s *session) buildModel(nOpens int) {
 	for _, o := range s.cl.openLog()[nOpens:] {
 		m := &mvb{vb: o.Vb, tuples: map[ckTuple]bool{}}
 		m.resume = ckTuple{UUID: uint64(o.Off.VbUUID), Seq: o.Off.SeqNo, Start: o.Snap.StartSeqNo, End: o.Snap.EndSeqNo}
+		m.endBound = o.Off.LatestSeqNo
 		m.maxSettle = m.resume.Seq
 		m.maxTuple = m.resume
 		m.lastSent = m.resume.Seq
@@ -526,6 +528,9 @@ func (s *session) end(op hOp) {
 			}
 			if !m.tuples[got] {
 				s.fail("C06", "vb %d: stream re-requested from %+v, which is not the position of any event of this vBucket (a mixture of two positions / branches)", m.vb, got)
+			}
+			if rec.Off.LatestSeqNo != m.endBound {
+				s.fail("C12", "vb %d: after a transient end the stream was re-requested up to seq %d, the session streams this vBucket up to %d: it does not keep being streamed (the server ends a stream that has reached its requested end for good)", m.vb, rec.Off.LatestSeqNo, m.endBound)
 			}
 			if s.failedOver[m.vb] {
 				s.label("reopen_after_failover")
